@@ -35,6 +35,7 @@ type Config struct {
 	SpareCap     bool // append growth policy: spare capacity
 	StopOnViol   bool
 	ModelPerPath bool // extract a model for each completed path (native validation)
+	ModelMax     int  // at most this many per harness (0 = all)
 	DumpDir      string
 }
 
@@ -129,6 +130,8 @@ type Path struct {
 	onceDone   map[*Value]bool
 	lastTime   *Term
 	isInitPath bool
+	budgetInit bool
+	budget     int
 	spec       bool
 }
 
@@ -376,7 +379,7 @@ func (p *Path) doAssert(c *Term, id string, site string) {
 	}
 	p.sol.SetTimeout(p.eng.cfg.ObligMs)
 	r := p.sol.CheckWith(p.st, p.st.Not(c))
-	p.eng.countOblig()
+	p.eng.countOblig(p.harness)
 	switch r {
 	case Unsat:
 		return
@@ -406,7 +409,7 @@ func (p *Path) reportPanic(tp targetPanic) {
 	// is the path really feasible?
 	p.sol.SetTimeout(p.eng.cfg.ObligMs)
 	r := p.sol.CheckWith(p.st, p.st.True)
-	p.eng.countOblig()
+	p.eng.countOblig(p.harness)
 	switch r {
 	case Unsat:
 		p.res.Outcome = "infeasible"
@@ -474,9 +477,10 @@ type Engine struct {
 	mu         sync.Mutex
 	covers     map[string]map[string]bool
 	asserts    map[string]map[string]int
-	obligs     int
+	obligs     map[string]int
+	modelN     map[string]int
 	funcs      map[string]int
-	stubsUsed  map[string]bool
+	stubsUsed  map[string]map[string]bool
 	pkgByPath  map[string]*ssa.Package
 	sizes      types.Sizes
 	sharedGlobals map[*ssa.Global]*Value
@@ -513,16 +517,30 @@ func (e *Engine) noteCover(h, id string, p *Path) {
 	}
 }
 
-func (e *Engine) countOblig() {
+func (e *Engine) countOblig(h string) {
 	e.mu.Lock()
-	e.obligs++
+	e.obligs[h]++
 	e.mu.Unlock()
 }
 
-func (e *Engine) noteStub(name string) {
+func (e *Engine) noteStub(h, name string) {
 	e.mu.Lock()
-	e.stubsUsed[name] = true
+	if e.stubsUsed[h] == nil {
+		e.stubsUsed[h] = map[string]bool{}
+	}
+	e.stubsUsed[h][name] = true
 	e.mu.Unlock()
+}
+
+// wantModel reports whether another per-path model should be extracted for harness h (cfg.ModelMax per harness).
+func (e *Engine) wantModel(h string) bool {
+	e.mu.Lock()
+	defer e.mu.Unlock()
+	if e.cfg.ModelMax > 0 && e.modelN[h] >= e.cfg.ModelMax {
+		return false
+	}
+	e.modelN[h]++
+	return true
 }
 
 func sortedKeys[V any](m map[string]V) []string {
